@@ -88,6 +88,7 @@ type schedOut struct {
 	NGrants     int                `json:"n_grants"`
 	Foreign     int64              `json:"foreign_hook_calls,omitempty"`
 	SharedMut   string             `json:"shared_buffer_mutated,omitempty"`
+	IdleBytes   string             `json:"idle_device_delivered,omitempty"`
 }
 
 type c12Engine struct {
@@ -270,6 +271,13 @@ func (g *c12Engine) runPlan(sp *schedPlan, env ...string) (*schedOut, *schedVerd
 			if got.Equal(want) {
 				continue
 			}
+			if op.K == "new" && g.unmodelled && got.IsNil && got.Panic == "" {
+				// the tree reads its source from goroutines of its own: those reads cannot be attributed to a
+				// task (the scripted faults do not reach them), so NewMnemonic is judged by conservation alone
+				if !ref.Supported(op.Lang) || g.readAheadTolerated(sp, &out, t, k) {
+					continue
+				}
+			}
 			if op.K == "new" && cold && want.IsNil {
 				// default-configured process: the library may legitimately treat the OS reader specially
 				// (read ahead, buffer); what must hold is C07's conservation form, checked below
@@ -311,7 +319,7 @@ func (g *c12Engine) readAheadTolerated(sp *schedPlan, out *schedOut, t, k int) b
 			if sp.Tasks[tt][kk].K != "new" {
 				continue
 			}
-			if strings.Contains(out.Delivered[tt][kk], hx) {
+			if strings.Contains(out.Delivered[tt][kk], hx) || strings.Contains(out.IdleBytes, hx) {
 				foundIn = true
 			}
 			if out.Outcomes[tt][kk].Out == o.Out {
